@@ -26,26 +26,26 @@ type Interp struct {
 	depth    int
 
 	// per-run side tables
-	pools    map[*Value]*poolState
-	onces    map[*Value]bool
-	posTerms map[*Term]ropePos
-	inputs   []inputRec
-	inputIdx map[string]int
-	events   []Event
-	summar   map[string]bool
-	atomN    int
-	ufCalls  map[string][]ufCall
-	fs       *symFS
-	harness  string
-	curPos   token.Pos
-	trace    bool
-	extra    map[string]interface{}
-	world    *World
-	poolMode string
+	pools       map[*Value]*poolState
+	onces       map[*Value]bool
+	posTerms    map[*Term]ropePos
+	inputs      []inputRec
+	inputIdx    map[string]int
+	events      []Event
+	summar      map[string]bool
+	atomN       int
+	ufCalls     map[string][]ufCall
+	fs          *symFS
+	harness     string
+	curPos      token.Pos
+	trace       bool
+	extra       map[string]interface{}
+	world       *World
+	poolMode    string
 	initialised map[*ssa.Package]bool
-	output   Str
-	th       *threadState
-	lastPanic *targetPanic
+	output      Str
+	th          *threadState
+	lastPanic   *targetPanic
 
 	// statistics across runs
 	funcsEntered map[string]int
